@@ -45,12 +45,71 @@ Lemma gen_keytag_octet_sum sum out n :
   go_KeyTag_loop2_run sum out (Z.of_nat n) = (GoNext, (ksum_from out 0 n sum, out, Z.of_nat n)).
 Proof. unfold go_KeyTag_loop2_run. rewrite Nat2Z.id. apply (keytag_loop_spec out (Z.of_nat n) n 0%nat). lia. Qed.
 
+(* ---- the chunked read: summing 192-octet chunks one after the other is the RFC sum over the whole key *)
+Lemma chunk_sum_spec sum c : chunk_sum sum c = ksum_from c 0 (length c) sum.
+Proof. unfold chunk_sum. rewrite gen_keytag_octet_sum. reflexivity. Qed.
+
+Lemma ksum_from_split out c1 : forall c2 i acc,
+  ksum_from out i (c1 + c2) acc = ksum_from out (i + c1) c2 (ksum_from out i c1 acc).
+Proof.
+  induction c1 as [|c IH]; intros c2 i acc; cbn [ksum_from Nat.add].
+  - rewrite Nat.add_0_r. reflexivity.
+  - rewrite IH. replace (S i + c)%nat with (i + S c)%nat by lia. reflexivity.
+Qed.
+
+Lemma nth_skipn' (l : list N) k i : nth i (skipn k l) 0 = nth (k + i) l 0.
+Proof.
+  revert l. induction k as [|k IH]; intros l; [reflexivity|].
+  destruct l as [|x l]; cbn [skipn Nat.add nth]; [destruct i; reflexivity|apply IH].
+Qed.
+
+Lemma nth_firstn' (l : list N) n i : (i < n)%nat -> nth i (firstn n l) 0 = nth i l 0.
+Proof.
+  revert l i. induction n as [|n IH]; intros l i Hi; [lia|].
+  destruct l as [|x l]; [reflexivity|]. destruct i as [|i]; cbn; [reflexivity|apply IH; lia].
+Qed.
+
+Lemma ksum_from_skipn out k : Nat.even k = true -> forall cnt i acc,
+  ksum_from (skipn k out) i cnt acc = ksum_from out (k + i) cnt acc.
+Proof.
+  intros Hk. induction cnt as [|c IH]; intros i acc; cbn [ksum_from]; [reflexivity|].
+  rewrite nth_skipn', IH. replace (k + S i)%nat with (S (k + i)) by lia.
+  rewrite Nat.even_add, Hk. destruct (Nat.even i); reflexivity.
+Qed.
+
+Lemma ksum_from_firstn out n : forall cnt i acc, (i + cnt <= n)%nat ->
+  ksum_from (firstn n out) i cnt acc = ksum_from out i cnt acc.
+Proof.
+  induction cnt as [|c IH]; intros i acc H; cbn [ksum_from]; [reflexivity|].
+  rewrite nth_firstn' by lia. apply IH. lia.
+Qed.
+
+Lemma chunked_sum_spec n : Nat.even n = true -> (0 < n)%nat -> forall fuel l acc,
+  (length l < fuel)%nat -> fold_left chunk_sum (chunks n fuel l) acc = ksum_from l 0 (length l) acc.
+Proof.
+  intros Hn Hpos. induction fuel as [|f IH]; intros l acc Hf; [lia|].
+  destruct l as [|x l']; [reflexivity|]. set (l := x :: l') in *.
+  change (chunks n (S f) l) with (firstn n l :: chunks n f (skipn n l)). cbn [fold_left].
+  rewrite chunk_sum_spec. rewrite IH.
+  2:{ rewrite skipn_length. unfold l in *. cbn [length] in *. lia. }
+  rewrite firstn_length, skipn_length.
+  rewrite ksum_from_firstn by lia.
+  rewrite (ksum_from_skipn l n Hn). rewrite Nat.add_0_r.
+  destruct (Nat.le_gt_cases (length l) n) as [Hle|Hgt].
+  - replace (length l - n)%nat with 0%nat by lia. rewrite Nat.min_r by lia. reflexivity.
+  - rewrite Nat.min_l by lia.
+    assert (E : ksum_from l 0 (length l) acc = ksum_from l 0 (n + (length l - n)) acc) by (f_equal; lia).
+    rewrite E, ksum_from_split. reflexivity.
+Qed.
+
 Lemma keytag_of_unfold flags proto alg material :
   keytag_of flags proto alg material =
   let sum0 := wrap32 (wrap32 (wrap32 (N.shiftl (N.shiftr flags 8) 8 + N.land flags 255) + N.shiftl proto 8) + alg) in
   let sum1 := ksum_from material 0 (length material) sum0 in
   N.land (wrap32 (sum1 + N.land (N.shiftr sum1 16) 65535)) 65535.
-Proof. unfold keytag_of. rewrite gen_keytag_octet_sum. reflexivity. Qed.
+Proof.
+  unfold keytag_of. rewrite (chunked_sum_spec keytag_chunk_octets); [reflexivity|reflexivity|vm_compute; lia|lia].
+Qed.
 
 (* two real Ed25519 keys of the driver's pool (tags observed on dnssec.KeyTag, CTag cases):
    an ordinary one — REVOKE adds 128 — and one whose checksum carries — REVOKE adds 129 (mod 2^16) *)
@@ -130,12 +189,12 @@ Proof.
     rewrite Eh. rewrite N.add_mod_idemp_l by discriminate. f_equal. lia.
 Qed.
 
-(* for every single-chunk key (octets < 256, at most 192 of them), every protocol / algorithm octet and every
+(* for every key of at most 4092 octets (the chunked read, any number of chunks), every protocol / algorithm octet and every
    16-bit flags value without the REVOKE bit: tag(revoked form) = tag + 128 or tag + 129 (mod 2^16).  Both occur
    (Example above), so no constant delta can find the anchor of a revoked DNSKEY. *)
 Lemma keytag_revoke_delta flags proto alg material :
   flags < 65536 -> N.land flags 128 = 0 -> proto < 256 -> alg < 256 ->
-  Forall (fun x => x < 256) material -> (length material <= 192)%nat ->
+  Forall (fun x => x < 256) material -> (length material <= 4092)%nat ->
   let t := keytag_of flags proto alg material in
   let t' := keytag_of (flags + 128) proto alg material in
   t' = (t + 128) mod 65536 \/ t' = (t + 129) mod 65536.
@@ -176,7 +235,7 @@ Proof.
   rewrite (W (a + b)) by lia. rewrite (W (a + b + proto * 256)) by lia. rewrite (W (a + b + proto * 256 + alg)) by lia.
   rewrite (W (a + (b + 128))) by lia. rewrite (W (a + (b + 128) + proto * 256)) by lia. rewrite (W (a + (b + 128) + proto * 256 + alg)) by lia.
   pose proof (kw_bound material Hm (length material) 0%nat) as Hk.
-  assert (Hk2 : kw material 0 (length material) <= 192 * 65280).
+  assert (Hk2 : kw material 0 (length material) <= 4092 * 65280).
   { eapply N.le_trans; [exact Hk|]. apply N.mul_le_mono_r. lia. }
   rewrite (ksum_from_linear material Hm) by (unfold two32; lia).
   rewrite (ksum_from_linear material Hm) by (unfold two32; lia).
